@@ -6,6 +6,7 @@ instrument within tol on the FINAL curve), reprice_of_postcondition, bootstrap_d
 Tie: the implementation's knot vector is fed to the C02 interpolation model (Driver/C02) and compared on a dense grid;
 closed-form deposit knots are recomputed from their formula.  Oracles (the executable property): every input
 instrument reprices on the built curve, df(curve date) = 1, df finite > 0 on a dense grid."""
+import copy
 import io
 import math
 import os
@@ -22,11 +23,15 @@ PROPS = ['FinVerif.Props.C01']
 DRIVERS = ['FinVerif.Driver.C02']
 TOL = 1e-8          # value / notional, sequential bootstrap (newton tol 1e-10)
 LS_TOL = 1e-6       # value / notional, global least-squares refit of the non-local interpolators
-RULE = ('seeded quote sets (1..4 deposits, 0..3 FRAs incl. the overlap branch, 0..6 swaps, increasing maturities, rates '
-        '-1 %..+12 %, spot 0 or 2 days, every fixed-leg frequency / day count used) on seeded valuation dates 2000-2036 '
-        '(month ends, leap days, weekends), built with IborSingleCurve for EVERY InterpTypes member, with OISCurve and '
-        'IborDualCurve for the bootstrap-suitable ones; one evaluation = one instrument repriced, one knot recomputed or '
-        'one grid date compared with the model; all cases are distinct by construction; non-trivial = all.')
+RULE = ('seeded quote sets in three regimes cycled per case (positive rates -1 %..+12 %; EUR-2021 style negative rates: deposits/FRAs/'
+        'short swaps below zero so that knot dfs exceed 1; positive rates with a forced futures-style FRA strip), 1..4 deposits, '
+        '0..4 FRAs in the shapes none / chain / first FRA overlapping the last deposit (closed-form branch) / strip (FRA k starts '
+        '1..3 days before FRA k-1 matures), 0..8 swaps on a contiguous run of standard tenors, spot 0 or 2 days, every fixed-leg '
+        'frequency / day count used, on seeded valuation dates 2000-2036 (month ends, leap days, weekends); EVERY quote set is built '
+        'with IborSingleCurve, OISCurve AND IborDualCurve (on a flat-forward OIS discount curve) for EVERY InterpTypes member; plus 17 '
+        'fixed witness quote sets. One evaluation = one instrument repriced, one constructor checked for not modifying its inputs, one '
+        'knot recomputed or one grid date compared with the model; all cases are distinct by construction; non-trivial = all. '
+        'Not explored (stated): sparse swap grids (1Y then 30Y), forward-starting deposits outside the fixed witness.')
 
 
 def quiet(f, *a, **k):
@@ -86,65 +91,90 @@ def run(ctx):
         """|t365 - tISDA| of date d: the time-axis gap of the leap-year defect"""
         return abs((d.excel_dt - v.excel_dt) / 365.0 - yf(DCT.ACT_ACT_ISDA, v, d))
 
-    def quotes():
+    def quotes(regime):
         d, m, y = D.interesting_dates(rng, 1, 2000, 2036)[0]
         v = Date(d, m, y)
         spot = rng.choice([0, 2])
         settle = v.add_weekdays(spot) if spot else v
-        level = rng.uniform(-0.01, 0.10)
-        amp = rng.uniform(-0.01, 0.025)   # par curve level + amp (1 - exp(-t/5)): admissible (positive forwards of moderate size)
+        if regime == 'neg':
+            # EUR-2021 style: deposits / FRAs / short swaps below zero (knot dfs above 1 out to several years), long end slightly positive
+            level = rng.uniform(-0.0060, -0.0035)
+            amp = rng.uniform(0.004, 0.012)
+        else:
+            level = rng.uniform(-0.01, 0.10)
+            amp = rng.uniform(-0.01, 0.025)   # par curve level + amp (1 - exp(-t/5)): admissible (positive forwards of moderate size)
 
         def rate(t):
-            return max(-0.012, min(0.13, level + amp * (1.0 - math.exp(-t / 5.0)) + rng.uniform(-0.0008, 0.0008)))
+            return max(-0.012, min(0.13, level + amp * (1.0 - math.exp(-t / 5.0)) + rng.uniform(-0.0008, 0.0008) * (0.25 if regime == 'neg' else 1.0)))
         dcs = [DCT.ACT_360, DCT.ACT_365F, DCT.THIRTY_E_360, DCT.ACT_ACT_ISDA, DCT.THIRTY_360_BOND]
         depo_dc = rng.choice(dcs[:3])
         ten = ['1D', '1W', '2W', '1M', '2M', '3M', '6M', '9M', '12M']
         nd = rng.choice([1, 2, 3, 4])
-        i0 = sorted(rng.sample(range(len(ten)), nd))
+        i0 = sorted(rng.sample(range(len(ten) - (3 if regime == 'strip' else 0)), nd))
         depos = [IborDeposit(settle, ten[i], rate(0.3), depo_dc) for i in i0]
         # deposits may collide after business-day adjustment
         depos = [x for k, x in enumerate(depos) if k == 0 or x.maturity_dt > depos[k - 1].maturity_dt]
         last = depos[-1].maturity_dt
         fras = []
-        nf = rng.choice([0, 0, 1, 2, 3])
-        start = last.add_tenor('-1M') if (rng.random() < 0.4 and (last.excel_dt - settle.excel_dt) > 45) else last
+        # FRA shapes: none / chain (each starts where the previous ends) / first FRA overlapping the last deposit (closed-form
+        # branch) / futures-style strip (FRA k starts 1..3 days BEFORE FRA k-1 matures)
+        shape = 'strip' if regime == 'strip' else rng.choice(['none', 'chain', 'chain', 'overlap-depo', 'strip', 'strip'])
+        nf = 0 if shape == 'none' else rng.choice([1, 2, 3, 4]) if shape != 'strip' else rng.choice([2, 3, 4])
+        if shape == 'overlap-depo' and (last.excel_dt - settle.excel_dt) > 45:
+            start = last.add_tenor('-1M')
+        elif shape == 'strip' and (last.excel_dt - settle.excel_dt) > 10 and rng.random() < 0.5:
+            start = last.add_days(-rng.choice([1, 2, 3]))
+        else:
+            start = last
         for _ in range(nf):
-            if start.excel_dt < v.excel_dt:
+            if start.excel_dt < settle.excel_dt:
                 start = last
             f_ = IborFRA(start, '3M', rate(1.0), depo_dc)
             if f_.maturity_dt <= last:
                 break
             fras.append(f_)
             last = f_.maturity_dt
-            start = f_.maturity_dt
+            start = f_.maturity_dt.add_days(-rng.choice([1, 2, 3])) if shape == 'strip' else f_.maturity_dt
         sw_t = ['1Y', '2Y', '3Y', '4Y', '5Y', '7Y', '10Y', '15Y', '20Y', '30Y']
-        ns = rng.choice([0, 1, 2, 3, 4, 6])
+        ns = rng.choice([0, 1, 2, 3, 4, 6]) if regime == 'pos' else rng.choice([2, 3, 4, 6, 8])
         fr = rng.choice([F.ANNUAL, F.SEMI_ANNUAL, F.QUARTERLY])
         sdc = rng.choice(dcs)
-        swaps = []
+        swaps, sw_ten = [], []
         # market-like grid: a contiguous run of standard tenors (sparse grids such as 1Y then 30Y make the library's
         # secant search, started from the previous knot's df, diverge to NaN — observed, see notes/C01.md; not explored here)
         i_start = rng.choice([0, 0, 1])
+        while i_start < len(sw_t) - 1 and settle.add_tenor(sw_t[i_start]).excel_dt <= last.excel_dt + 5:
+            i_start += 1
         for i in range(i_start, min(len(sw_t), i_start + ns)):
             s_ = IborSwap(settle, sw_t[i], SwapTypes.PAY, rate(float(sw_t[i][:-1])), fr, sdc)
             if s_.fixed_leg.payment_dts[-1] > last:
                 swaps.append(s_)
+                sw_ten.append(sw_t[i])
                 last = s_.fixed_leg.payment_dts[-1]
-        desc = {'valuation': ds(v), 'spot_days': spot, 'deposit_dc': depo_dc.name,
+        desc = {'valuation': ds(v), 'spot_days': spot, 'deposit_dc': depo_dc.name, 'regime': regime, 'fra_shape': shape,
                 'deposits': [[ds(x.start_dt), ds(x.maturity_dt), x.deposit_rate] for x in depos],
                 'fras': [[ds(x.start_dt), ds(x.maturity_dt), x.fra_rate] for x in fras],
                 'swaps': [[ds(x.effective_dt), ds(x.maturity_dt), x.fixed_leg.cpn] for x in swaps],
                 'swap_freq': fr.name, 'swap_dc': sdc.name}
-        return v, settle, depos, fras, swaps, desc, (fr, sdc)
+        return v, settle, depos, fras, swaps, desc, (fr, sdc, sw_ten)
 
     ops, impl, metas = [], [], []
+
+    def stale_fit_only(curve, fn, tol):
+        try:
+            rc = copy.copy(curve)
+            rc._interpolator = Interpolator(curve._interp_type)
+            rc._interpolator.fit(rc._times, rc._dfs)
+            return abs(quiet(fn, rc)) <= tol
+        except Exception:  # noqa: BLE001
+            return False
 
     def check_curve(kind, curve, v, instr, desc, tol=TOL, blanket=None):
         """instr: list of (tag, object, value function -> value/notional - par)"""
         rate_scale = 0.15
-        for tag, obj, fn, dts in instr:
+        for j, (tag, obj, fn, dts) in enumerate(instr):
             try:
-                e = quiet(fn)
+                e = quiet(fn, curve)
             except Exception as ex:  # noqa: BLE001
                 ctx.violation(f'{kind}: valuing an input {tag} on the built curve raised', desc | {'instrument': tag, 'error': type(ex).__name__ + ': ' + str(ex)[:100]},
                               finding=blanket, clause='reprice-raises')
@@ -154,14 +184,64 @@ def run(ctx):
                 gap = max(dt_axis(v, d) for d in dts)
                 leap = any(touches_leap(v, d) for d in dts)
                 finding = blanket
+                off = len(curve._times) - 1 - len(instr)      # synthetic bridging deposit, if any
+                kj = off + j + 1                              # this instrument's knot
+
+                def part_curve(n, _c=curve):
+                    pc = copy.copy(_c)
+                    pc._times = np.array(_c._times[:n])
+                    pc._dfs = np.array(_c._dfs[:n])
+                    pc._interpolator = Interpolator(_c._interp_type)
+                    pc._interpolator.fit(pc._times, pc._dfs)
+                    return pc
+
+                def closed_form_resid():
+                    """closed-form knots: df(start) read BEFORE the own knot was appended, df(maturity) after"""
+                    a_ = yf(obj.dc_type, obj.start_dt, obj.maturity_dt)
+                    r_ = obj.deposit_rate if tag == 'deposit' else obj.fra_rate
+                    ratio = (float(np.asarray(part_curve(kj).df(obj.start_dt)).ravel()[0])
+                             / float(np.asarray(part_curve(kj + 1).df(obj.maturity_dt)).ravel()[0]))
+                    return abs(ratio - (1.0 + a_ * r_))
                 # narrow: only closed-form knots (deposits / overlapping FRAs) can be hit; the span must touch a leap
                 # year; magnitude bounded by rate_scale * time-axis gap (<= ~1.2e-4 for |rates| <= 15 %, gap <= 366/365-1)
                 if blanket:
                     pass
+                elif 'non-local sequential' in kind:
+                    # OISCurve / IborDualCurve run the one-knot-at-a-time bootstrap for EVERY interpolation type; with a non-local
+                    # interpolant each later knot moves the curve under the earlier instruments.  Excused only if the mechanism is
+                    # exactly that: on the knot vector as it stood when this instrument's knot was placed (the later knots removed,
+                    # the same interpolant refitted) the instrument DOES reprice to the root-finder tolerance; and the drift is small.
+                    if 0 <= off and math.isfinite(e) and abs(e) <= 5e-3:
+                        try:
+                            incl = part_curve(kj + 1)
+                            if j < len(instr) - 1 and abs(quiet(fn, incl)) <= tol:
+                                finding = 'C01/sequential-bootstrap-non-local-interp'
+                            elif tag in ('deposit', 'fra') and kj >= 1:
+                                # closed-form knots: df(start) was read BEFORE the instrument's own knot was appended, df(maturity)
+                                # after; with a non-local interpolant the own knot already moves df(start)
+                                resid = closed_form_resid()
+                                if resid <= tol:
+                                    finding = 'C01/sequential-bootstrap-non-local-interp'
+                                elif leap and resid <= 2.0 * rate_scale * gap + 1e-12:
+                                    finding = 'C01/leap-time-axis'
+                        except Exception:  # noqa: BLE001
+                            pass
                 elif 'least-squares' in kind:
                     # global refit stops at scipy least_squares' default tolerances: repricing only to ~1e-5 of notional
-                    if math.isfinite(e) and abs(e) <= 2e-4:
+                    if math.isfinite(e) and abs(e) <= 1e-4:
                         finding = 'C01/least-squares-refit-tolerance'
+                elif (tag == 'fra' and curve._interp_type == InterpTypes.LINEAR_ONFWD_RATES and j == len(instr) - 1 and off >= 0
+                      and math.isfinite(e) and abs(e) <= 2e-2 and stale_fit_only(curve, fn, tol)):
+                    # the closed-form FRA branch appends its knot without refitting the interpolator; when that FRA is the LAST
+                    # instrument nothing refits afterwards and LINEAR_ONFWD_RATES (the one bootstrap scheme that reads a fitted
+                    # object) extrapolates over the FRA's own knot.  Excused only if refitting on the final knots repairs it.
+                    finding = 'C01/stale-fit-after-closed-form-last-knot'
+                elif (tag == 'deposit' and off >= 0 and kj >= 1 and math.isfinite(e) and abs(e) <= 2e-2
+                      and (obj.start_dt.excel_dt - v.excel_dt) / 365.0 > float(curve._times[kj - 1]) + 1e-12
+                      and closed_form_resid() <= tol):
+                    # a deposit starting beyond the last knot: df(start) was extrapolated when the knot was computed and is
+                    # re-interpolated (towards the deposit's own knot) afterwards
+                    finding = 'C01/deposit-starting-beyond-last-knot'
                 elif leap and tag in ('deposit', 'fra') and math.isfinite(e) and abs(e) <= 2.0 * rate_scale * gap + 1e-12:
                     finding = 'C01/leap-time-axis'
                 ctx.violation(f'{kind}: input {tag} does not reprice (value/notional off par by more than {tol})',
@@ -195,78 +275,159 @@ def run(ctx):
                 metas.append(desc | {'curve': kind, 'query': ds(q)})
         ctx.count(f'{kind}/df-grid', len(grid))
 
-    ncase = 10 if ctx.quick() else 120
+    ncase = 15 if ctx.quick() else 150
+    all_its = list(InterpTypes)
     for case in range(ncase):
-        v, settle, depos, fras, swaps, desc, (fr, sdc) = quotes()
+        regime = ['pos', 'neg', 'strip'][case % 3]
+        for _try in range(20):
+            try:
+                v, settle, depos, fras, swaps, desc, (fr, sdc, sw_ten) = quotes(regime)
+                break
+            except FinError:
+                tick('quotes/instrument-constructor-rejected')   # e.g. a start date moved past the maturity by the calendar
+        else:
+            raise RuntimeError('quote generator could not produce an admissible set')
+        tick(f'quotes/{regime}/fra-shape={desc["fra_shape"]}')
         tick(f'quotes/depos={len(depos)} fras={len(fras)} swaps={len(swaps)}')
+        if any(b_.start_dt < a_.maturity_dt for a_, b_ in zip(fras[:-1], fras[1:])):
+            tick('quotes/overlapping-fra-strip')
+        if any(x.deposit_rate < 0 for x in depos):
+            tick('quotes/negative-deposit-rates')
         # no swaps and the first deposit settles after the curve date: _validate_inputs adds its bridging synthetic deposit only
         # when swaps are present, so the bootstrap asks a one-knot curve for df(settlement) (out-of-bounds read, C02/single-knot-curve)
         blanket = 'C01/spot-lag-without-swaps' if (len(swaps) == 0 and depos[0].start_dt > v) else None
-        its = list(InterpTypes) if (case % 2 == 0 or not ctx.quick()) else local + [InterpTypes.LINEAR_ONFWD_RATES]
-        for it in its:
+        oswaps = [OIS(settle, t_, SwapTypes.PAY, x.fixed_leg.cpn, fr, sdc) for t_, x in zip(sw_ten, swaps)]
+
+        def unchanged(kind, passed, original, d2_):
+            """the constructor must not modify the caller's instrument lists"""
+            for nm, a_, b_ in passed_pairs(passed, original):
+                if len(a_) != len(b_) or any(x is not y for x, y in zip(a_, b_)):
+                    syn = (nm == 'deposits' and len(a_) == len(b_) + 1 and all(x is y for x, y in zip(a_[1:], b_))
+                           and a_[0].start_dt == v and a_[0].maturity_dt == b_[0].start_dt)
+                    ctx.violation(f"{kind}: the constructor modified the caller's list of {nm}",
+                                  d2_ | {'list': nm, 'length_before': len(b_), 'length_after': len(a_)},
+                                  finding='C01/synthetic-deposit-inserted-into-callers-list' if (syn and kind in ('OISCurve', 'IborDualCurve')) else None,
+                                  clause='inputs-unchanged')
+            ctx.count(f'{kind}/inputs-unchanged', 1)
+
+        def passed_pairs(passed, original):
+            return zip(('deposits', 'fras', 'swaps'), passed, original)
+        # every InterpTypes member for every curve class ("under every supported interpolation scheme")
+        for it in all_its:
             d2 = desc | {'interp': it.name}
+            bootstrap = Interpolator.suitable_for_bootstrap(it)
+            # ------------------------------------------------------------------ IborSingleCurve
+            curve = None
             try:
-                curve = quiet(IborSingleCurve, v, depos, fras, swaps, it)
+                pl = (list(depos), list(fras), list(swaps))
+                curve = quiet(IborSingleCurve, v, pl[0], pl[1], pl[2], it)
+                unchanged('IborSingleCurve', pl, (depos, fras, swaps), d2)
             except FinError as ex:
                 tick('IborSingleCurve/rejected-by-validation: ' + str(getattr(ex, '_message', ex))[:40])
-                continue
             except Exception as ex:  # noqa: BLE001
                 ctx.violation('IborSingleCurve: bootstrap raised on an admissible quote set', d2 | {'error': type(ex).__name__ + ': ' + str(ex)[:120]},
                               finding=blanket, clause='build-raises')
-                continue
-            tick(f'IborSingleCurve/{it.name}')
-            instr = [('deposit', x, (lambda x=x: x.value(v, curve) / x.notional - 1.0), [x.start_dt, x.maturity_dt]) for x in depos]
-            instr += [('fra', x, (lambda x=x: x.value(v, curve) / x.notional), [x.start_dt, x.maturity_dt]) for x in fras]
-            instr += [('swap', x, (lambda x=x: x.value(v, curve, curve, None) / x.fixed_leg.notional), [x.effective_dt] + list(x.fixed_leg.payment_dts))
-                      for x in swaps]
-            bootstrap = Interpolator.suitable_for_bootstrap(it)
-            if not bootstrap:
-                # non-local interpolators are refitted globally by least squares (ftol 1e-4 in rate terms): DESIGN gap
-                instr = [(t, o, f, dts) for t, o, f, dts in instr]
-            # non-local interpolators are refitted globally by least squares (ftol 1e-4 in rate terms, DESIGN gap): 1e-6
-            check_curve('IborSingleCurve' if bootstrap else 'IborSingleCurve(least-squares)', curve, v, instr, d2,
-                        tol=TOL if bootstrap else LS_TOL, blanket=blanket)
-            # closed-form deposit knots as placed by the bootstrap: 1/(1 + alpha r) * df(settle)
-            if bootstrap and not blanket:
-                for k, x in enumerate(depos, start=1):
-                    a = yf(x.dc_type, x.start_dt, x.maturity_dt)
-                    exp_df = 1.0 / (1.0 + a * x.deposit_rate) * float(curve.df(x.start_dt)) if k == 1 else None
-                    tk = (x.maturity_dt.excel_dt - v.excel_dt) / 365.0
-                    if not close(curve._times[k], tk, rtol=0, atol=1e-15):
-                        ctx.violation('deposit knot is not at (maturity - curve date)/365', d2 | {'knot': k, 'time': float(curve._times[k]), 'expected': tk},
-                                      clause='knot-time')
-                    ctx.count('IborSingleCurve/deposit-knot', 1)
-        # OIS curve from the same quote shapes, dual curve on top of it (bootstrap-suitable interpolators)
-        for it in (local if ctx.quick() else local + [InterpTypes.LINEAR_ONFWD_RATES]):
-            d2 = desc | {'interp': it.name}
-            oswaps = [OIS(settle, x.maturity_dt, SwapTypes.PAY, x.fixed_leg.cpn, fr, sdc) for x in swaps]
-            if not (depos or oswaps):
-                continue
+            if curve is not None:
+                tick(f'IborSingleCurve/{it.name}')
+                instr = [('deposit', x, (lambda c, x=x: x.value(v, c) / x.notional - 1.0), [x.start_dt, x.maturity_dt]) for x in depos]
+                instr += [('fra', x, (lambda c, x=x: x.value(v, c) / x.notional), [x.start_dt, x.maturity_dt]) for x in fras]
+                instr += [('swap', x, (lambda c, x=x: x.value(v, c, c, None) / x.fixed_leg.notional), [x.effective_dt] + list(x.fixed_leg.payment_dts))
+                          for x in swaps]
+                # non-local interpolators are refitted globally by least squares (ftol 1e-4 in rate terms, DESIGN gap): 1e-6
+                check_curve('IborSingleCurve' if bootstrap else 'IborSingleCurve(least-squares)', curve, v, instr, d2,
+                            tol=TOL if bootstrap else LS_TOL, blanket=blanket)
+                # closed-form deposit knots as placed by the bootstrap sit at (maturity - curve date)/365
+                if bootstrap and not blanket:
+                    # knots are mapped through the instruments the curve actually used (curve.used_deposits may start with the
+                    # synthetic bridging deposit valuation date -> settlement date); the caller's inputs are the tail of that list
+                    used = list(curve.used_deposits)
+                    if len(used) - len(depos) not in (0, 1) or any(a_ is not b_ for a_, b_ in zip(used[len(used) - len(depos):], depos)):
+                        ctx.violation('IborSingleCurve.used_deposits is not the input deposits (optionally preceded by one synthetic deposit)',
+                                      d2 | {'used': len(used), 'input': len(depos)}, clause='used-instruments')
+                    if len(curve._times) != 1 + len(used) + len(curve.used_fras) + len(curve.used_swaps):
+                        ctx.violation('IborSingleCurve: number of knots is not 1 + number of used instruments',
+                                      d2 | {'knots': len(curve._times), 'used': [len(used), len(curve.used_fras), len(curve.used_swaps)]}, clause='knot-count')
+                    for k, x in enumerate(used, start=1):
+                        tk = (x.maturity_dt.excel_dt - v.excel_dt) / 365.0
+                        if k < len(curve._times) and not close(curve._times[k], tk, rtol=0, atol=1e-15):
+                            ctx.violation('deposit knot is not at (maturity - curve date)/365', d2 | {'knot': k, 'time': float(curve._times[k]), 'expected': tk},
+                                          clause='knot-time')
+                        ctx.count('IborSingleCurve/deposit-knot', 1)
+            # ------------------------------------------------------------------ OISCurve (same quote shapes, FRAs included)
+            oc = None
             try:
-                oc = quiet(OISCurve, v, depos, [], oswaps, it)
+                pl = (list(depos), list(fras), list(oswaps))
+                oc = quiet(OISCurve, v, pl[0], pl[1], pl[2], it)
+                unchanged('OISCurve', pl, (depos, fras, oswaps), d2)
             except FinError as ex:
                 tick('OISCurve/rejected-by-validation: ' + str(getattr(ex, '_message', ex))[:40])
-                continue
             except Exception as ex:  # noqa: BLE001
-                ctx.violation('OISCurve: bootstrap raised on an admissible quote set', d2 | {'error': type(ex).__name__ + ': ' + str(ex)[:120]}, finding=blanket, clause='build-raises')
-                continue
-            tick(f'OISCurve/{it.name}')
-            instr = [('deposit', x, (lambda x=x: x.value(v, oc) / x.notional - 1.0), [x.start_dt, x.maturity_dt]) for x in depos]
-            instr += [('swap', x, (lambda x=x: x.value(v, oc) / x.fixed_leg.notional), [x.effective_dt] + list(x.fixed_leg.payment_dts)) for x in oswaps]
-            check_curve('OISCurve', oc, v, instr, d2, blanket=blanket)
+                ctx.violation('OISCurve: bootstrap raised on an admissible quote set', d2 | {'error': type(ex).__name__ + ': ' + str(ex)[:120]},
+                              finding=blanket, clause='build-raises')
+            if oc is not None:
+                tick(f'OISCurve/{it.name}')
+                instr = [('deposit', x, (lambda c, x=x: x.value(v, c) / x.notional - 1.0), [x.start_dt, x.maturity_dt]) for x in depos]
+                instr += [('fra', x, (lambda c, x=x: x.value(v, c) / x.notional), [x.start_dt, x.maturity_dt]) for x in fras]
+                instr += [('swap', x, (lambda c, x=x: x.value(v, c) / x.fixed_leg.notional), [x.effective_dt] + list(x.fixed_leg.payment_dts)) for x in oswaps]
+                check_curve('OISCurve' if bootstrap else 'OISCurve(non-local sequential)', oc, v, instr, d2, blanket=blanket)
+            # ------------------------------------------------------------------ IborDualCurve on top of a flat-forward OIS curve
+            disc = None
             try:
-                dc_ = quiet(IborDualCurve, v, oc, depos, fras, swaps, it)
+                disc = oc if (oc is not None and it == InterpTypes.FLAT_FWD_RATES) else quiet(OISCurve, v, list(depos), list(fras), list(oswaps), InterpTypes.FLAT_FWD_RATES)
+            except Exception:  # noqa: BLE001
+                disc = None
+            if disc is None:
+                continue
+            dc_ = None
+            try:
+                pl = (list(depos), list(fras), list(swaps))
+                dc_ = quiet(IborDualCurve, v, disc, pl[0], pl[1], pl[2], it)
+                unchanged('IborDualCurve', pl, (depos, fras, swaps), d2)
             except FinError as ex:
                 tick('IborDualCurve/rejected-by-validation: ' + str(getattr(ex, '_message', ex))[:40])
-                continue
             except Exception as ex:  # noqa: BLE001
-                ctx.violation('IborDualCurve: bootstrap raised on an admissible quote set', d2 | {'error': type(ex).__name__ + ': ' + str(ex)[:120]}, finding=blanket, clause='build-raises')
-                continue
-            tick(f'IborDualCurve/{it.name}')
-            instr = [('deposit', x, (lambda x=x: x.value(v, dc_) / x.notional - 1.0), [x.start_dt, x.maturity_dt]) for x in depos]
-            instr += [('fra', x, (lambda x=x: x.value(v, oc, dc_) / x.notional), [x.start_dt, x.maturity_dt]) for x in fras]
-            instr += [('swap', x, (lambda x=x: x.value(v, oc, dc_, None) / x.fixed_leg.notional), [x.effective_dt] + list(x.fixed_leg.payment_dts)) for x in swaps]
-            check_curve('IborDualCurve', dc_, v, instr, d2, blanket=blanket)
+                ctx.violation('IborDualCurve: bootstrap raised on an admissible quote set', d2 | {'error': type(ex).__name__ + ': ' + str(ex)[:120]},
+                              finding=blanket, clause='build-raises')
+            if dc_ is not None:
+                tick(f'IborDualCurve/{it.name}')
+                instr = [('deposit', x, (lambda c, x=x: x.value(v, c) / x.notional - 1.0), [x.start_dt, x.maturity_dt]) for x in depos]
+                instr += [('fra', x, (lambda c, x=x: x.value(v, disc, c) / x.notional), [x.start_dt, x.maturity_dt]) for x in fras]
+                instr += [('swap', x, (lambda c, x=x: x.value(v, disc, c, None) / x.fixed_leg.notional), [x.effective_dt] + list(x.fixed_leg.payment_dts)) for x in swaps]
+                check_curve('IborDualCurve' if bootstrap else 'IborDualCurve(non-local sequential)', dc_, v, instr, d2, blanket=blanket)
+    # ---- fixed quote sets: the witnesses of the structural findings go through the same oracle on every run
+    vw = Date(14, 6, 2021)
+    sw_ = vw.add_weekdays(2)
+    for cls_, nm_ in ((IborSingleCurve, 'IborSingleCurve'), (OISCurve, 'OISCurve')):
+        for it in [InterpTypes.FLAT_FWD_RATES, InterpTypes.LINEAR_FWD_RATES, InterpTypes.LINEAR_ZERO_RATES, InterpTypes.LINEAR_ONFWD_RATES]:
+            # (1) closed-form FRA (overlapping the deposit) as the last instrument
+            dps = [IborDeposit(vw, '3M', 0.01, DCT.ACT_360)]
+            frs = [IborFRA(vw.add_tenor('2M'), '3M', 0.02, DCT.ACT_360)]
+            c_ = quiet(cls_, vw, list(dps), list(frs), [], it)
+            ins = [('deposit', x, (lambda c, x=x: x.value(vw, c) / x.notional - 1.0), [x.start_dt, x.maturity_dt]) for x in dps]
+            ins += [('fra', x, (lambda c, x=x: x.value(vw, c) / x.notional), [x.start_dt, x.maturity_dt]) for x in frs]
+            check_curve(nm_, c_, vw, ins, {'valuation': ds(vw), 'spot_days': 0, 'deposit_dc': 'ACT_360', 'interp': it.name, 'witness': 'closed-form FRA last',
+                                           'deposits': [[ds(x.start_dt), ds(x.maturity_dt), x.deposit_rate] for x in dps],
+                                           'fras': [[ds(x.start_dt), ds(x.maturity_dt), x.fra_rate] for x in frs], 'swaps': []})
+            # (2) a second deposit that starts after the first one matures
+            dps = [IborDeposit(vw, '3M', 0.01, DCT.ACT_360), IborDeposit(vw.add_tenor('4M'), '3M', 0.02, DCT.ACT_360)]
+            c_ = quiet(cls_, vw, list(dps), [], [], it)
+            ins = [('deposit', x, (lambda c, x=x: x.value(vw, c) / x.notional - 1.0), [x.start_dt, x.maturity_dt]) for x in dps]
+            check_curve(nm_, c_, vw, ins, {'valuation': ds(vw), 'spot_days': 0, 'deposit_dc': 'ACT_360', 'interp': it.name, 'witness': 'forward-starting deposit',
+                                           'deposits': [[ds(x.start_dt), ds(x.maturity_dt), x.deposit_rate] for x in dps], 'fras': [], 'swaps': []})
+    # (3) spot lag without swaps (one-knot curve asked for df(settlement))
+    dps = [IborDeposit(sw_, '1M', 0.02, DCT.ACT_360), IborDeposit(sw_, '3M', 0.021, DCT.ACT_360)]
+    dw = {'valuation': ds(vw), 'spot_days': 2, 'deposit_dc': 'ACT_360', 'interp': 'FLAT_FWD_RATES', 'witness': 'spot lag without swaps',
+          'deposits': [[ds(x.start_dt), ds(x.maturity_dt), x.deposit_rate] for x in dps], 'fras': [], 'swaps': []}
+    try:
+        c_ = quiet(IborSingleCurve, vw, list(dps), [], [], InterpTypes.FLAT_FWD_RATES)
+        ins = [('deposit', x, (lambda c, x=x: x.value(vw, c) / x.notional - 1.0), [x.start_dt, x.maturity_dt]) for x in dps]
+        check_curve('IborSingleCurve', c_, vw, ins, dw, blanket='C01/spot-lag-without-swaps')
+    except FinError:
+        pass
+    except Exception as ex:  # noqa: BLE001
+        ctx.violation('IborSingleCurve: bootstrap raised on an admissible quote set', dw | {'error': type(ex).__name__ + ': ' + str(ex)[:120]},
+                      finding='C01/spot-lag-without-swaps', clause='build-raises')
+    ctx.count('witness/structural', 17)
     # ---- the implementation's knot vectors through the C02 interpolation model
     if ops and drivers_ok:
         try:
